@@ -18,7 +18,7 @@ from menelaus.data_drift import HDDDM, CDBD, KdqTreeBatch, NNDVI
 from menelaus.partitioners import NNSpacePartitioner
 
 from mc import rng
-from mc.explorer import System, Violation
+from mc.explorer import System, Violation, dev_split
 from mc.numeric import close
 
 PROPERTY = "C18"
@@ -61,8 +61,50 @@ def _structured(n):
     return out
 
 
-PERMS = {n: [list(p) for p in itertools.permutations(range(n))][1:] for n in (3, 4, 5)}
+class _LazyPerms(dict):
+    def __missing__(self, n):
+        self[n] = huge_perms(n)
+        return self[n]
+
+
+PERMS = _LazyPerms({n: [list(p) for p in itertools.permutations(range(n))][1:] for n in (3, 4, 5)})
 PERMS.update({n: _structured(n) for n in (6, 11)})
+
+
+# ---------------------------------------------------------------------------
+# batches far from toy sizes (tens to hundreds of thousands of rows): anything that treats a batch or the pooled
+# reference by position once it is "large" (slices, chunks, caps, sub-sampling of the head or tail) is invisible on
+# 3-11 rows.  Deterministic lattices; batches 2 and 3 are strongly ordered by position (a level shift in the second
+# half / ascending values), so a positional part of them is not representative of the whole.
+# ---------------------------------------------------------------------------
+HUGE_SIZES = {"quick": (70001, 150001), "thorough": (1025, 70001, 150001, 300007)}
+
+
+def huge_menu(n):
+    i = np.arange(n)
+    j = np.arange(n // 2 + 1)
+    return [
+        np.column_stack([(i * 7919 % 10007) / 100.0, (i * 104729 % 9973) / 50.0]),
+        np.column_stack([((j * 6007 + 13) % 10007) / 100.0, ((j * 7 + 5) % 9973) / 50.0]),
+        np.column_stack([((i * 6007 + 13) % 10007) / 100.0 + (i > n // 2) * 3.0, (i * 7 % 9973) / 50.0]),
+        np.column_stack([np.sort((j * 7919 % 10007) / 100.0), (j * 104729 % 9973) / 50.0]),
+    ]
+
+
+def huge_perms(n):
+    """n! is out of reach: reversal, rotations by 1 / a third / a half, evens-then-odds, riffle of the halves, one transposition"""
+    ident = np.arange(n)
+    h = (n + 1) // 2
+    riffle = np.empty(n, dtype=int)
+    riffle[0::2] = ident[:h]
+    riffle[1::2] = ident[h:]
+    swap = ident.copy()
+    swap[0], swap[-1] = swap[-1], swap[0]
+    return [ident[::-1].copy(), np.roll(ident, -1), np.roll(ident, -(n // 3)), np.roll(ident, -(n // 2)),
+            np.concatenate([ident[0::2], ident[1::2]]), riffle, swap]
+
+
+HUGE_PERM_NAMES = ["reversal", "rotate-1", "rotate-third", "rotate-half", "evens-then-odds", "riffle", "swap-ends"]
 
 
 def kdq_divergence(det):
@@ -77,8 +119,9 @@ def kdq_divergence(det):
 
 
 class Perm(System):
-    def __init__(self, name, cls, menu):
+    def __init__(self, name, cls, menu, kind=None):
         self.name = name
+        self.kind = kind or name  # detector family (the huge-batch systems carry another registry name)
         self.cls = cls
         self.menu = menu
 
@@ -111,9 +154,9 @@ class Perm(System):
         return out
 
     def _distance(self, det, state, which, sym, pi):
-        if self.name in ("HDDDM", "CDBD"):
+        if self.kind in ("HDDDM", "CDBD"):
             return float(det.current_distance)
-        if self.name == "KdqTreeBatch":
+        if self.kind == "KdqTreeBatch":
             return kdq_divergence(det)
         return None
 
@@ -127,6 +170,8 @@ class Perm(System):
         if pi is not None:
             state["used"] += 1
             ctx.mark("permuted_reference" if pos == 0 else "permuted_test_batch")
+            if cfg.get("huge"):
+                ctx.count("huge_batches_permuted")
         seed = (ctx.seed, self.name, cfg["id"], pos)
         obs = {}
         if pos == 0:
@@ -136,7 +181,7 @@ class Perm(System):
             b.set_reference(xb)
             state["ref"], state["refp"] = xa, xb
             return {"set_reference": sym, "perm": pi}
-        if self.name == "NNDVI":
+        if self.kind == "NNDVI":
             # the NN-DVI distance between exactly these two batches (pure function of the partitioner)
             da = self._nnps(np.asarray(a.reference_batch), np.asarray(xa), cfg["params"]["k_nn"])
             db = self._nnps(np.asarray(b.reference_batch), np.asarray(xb), cfg["params"]["k_nn"])
@@ -144,7 +189,7 @@ class Perm(System):
         a.update(xa)
         rng.seed_step(*seed)
         b.update(xb)
-        if self.name != "NNDVI":
+        if self.kind != "NNDVI":
             da = self._distance(a, state, "a", sym, None)
             db = self._distance(b, state, "b", sym, pi)
         if not close(da, db, rel=1e-12, abs_=1e-12):
@@ -156,7 +201,7 @@ class Perm(System):
         obs["divergence"] = da
         if da > 0:
             ctx.count("nonzero_divergences")
-        if self.name in ("HDDDM", "CDBD"):
+        if self.kind in ("HDDDM", "CDBD"):
             ka = {int(k): float(v) for k, v in a.distances.items()}
             kb = {int(k): float(v) for k, v in b.distances.items()}
             if not close(ka, kb, rel=1e-12, abs_=1e-12):
@@ -199,6 +244,37 @@ SYSTEMS = {
     "KdqTreeBatch": Perm("KdqTreeBatch", KdqTreeBatch, M2),
     "NNDVI": Perm("NNDVI", NNDVI, M2),
 }
+
+class _LazyMenu:
+    def __init__(self, n, cols):
+        self.n, self.cols, self._m = n, cols, None
+
+    def _get(self):
+        if self._m is None:
+            self._m = [b[:, : self.cols].copy() for b in huge_menu(self.n)]
+        return self._m
+
+    def __getitem__(self, k):
+        return self._get()[k]
+
+    def __len__(self):
+        return 4
+
+
+for _n in sorted(set(HUGE_SIZES["quick"]) | set(HUGE_SIZES["thorough"])):
+    SYSTEMS["HDDDM|huge%d" % _n] = Perm("HDDDM|huge%d" % _n, HDDDM, _LazyMenu(_n, 2), kind="HDDDM")
+    SYSTEMS["CDBD|huge%d" % _n] = Perm("CDBD|huge%d" % _n, CDBD, _LazyMenu(_n, 1), kind="CDBD")
+    SYSTEMS["KdqTreeBatch|huge%d" % _n] = Perm("KdqTreeBatch|huge%d" % _n, KdqTreeBatch, _LazyMenu(_n, 2), kind="KdqTreeBatch")
+
+HUGE_CFGS = [
+    ("HDDDM", {"detect_batch": 3, "statistic": "stdev", "significance": 0.5}, True),
+    ("HDDDM", {"detect_batch": 2, "statistic": "tstat", "significance": 0.05, "subsets": 3}, False),
+    ("CDBD", {"detect_batch": 3, "statistic": "stdev", "significance": 0.5}, True),
+    ("KdqTreeBatch", {"alpha": 0.05, "bootstrap_samples": 5, "count_ubound": 400}, True),
+    ("KdqTreeBatch", {"alpha": 0.3, "bootstrap_samples": 5, "count_ubound": 2000}, True),
+]
+# reference, then three more batches; exactly one position carries a permuted batch
+HUGE_HISTORIES = [[0, 1, 2, 3], [2, 1, 0, 1], [3, 0, 1, 2], [0, 1, 1, 0]]
 
 # (system, params, decisions compared?, cost)
 CFGS = [
@@ -288,10 +364,34 @@ def tasks(tier, seed):
                         "validate_every": 307,
                     }
                 )
+    # huge batches: four fixed histories, one permuted position, seven structured permutations
+    for n in HUGE_SIZES[tier]:
+        for hi, (kind, params, decisions) in enumerate(HUGE_CFGS):
+            if tier == "quick" and kind == "KdqTreeBatch" and n > 100000:
+                continue  # the tree detectors cost most: one size beyond 2**16 rows in quick, all sizes in thorough
+            name = "%s|huge%d" % (kind, n)
+            cfg = {"id": 400 + hi, "params": params, "decisions": decisions, "menu": [0, 1, 2, 3], "max_perm": 1, "huge": n}
+            for hj, hist in enumerate(HUGE_HISTORIES[: 2 if tier == "quick" else 4]):
+                # deviation mode: the unpermuted history with exactly <= 1 position replaced by each permuted variant
+                out += dev_split(
+                    {
+                        "system": name,
+                        "cfg": cfg,
+                        "mode": "dev",
+                        "default": [[b, None] for b in hist],
+                        "menu": [[[b, pi] for pi in range(len(HUGE_PERM_NAMES))] for b in hist],
+                        "menu_per_pos": True,
+                        "k": 1,
+                        "label": "%s|%d|h%d" % (name, hi, hj),
+                        "cost": 8 * n / 70000.0,
+                        "validate_every": 5,
+                    }
+                )
     return out
 
 
 REQUIRED = [
+    "huge_batches_permuted",
     "dataframe_batches",
     "permuted_reference",
     "permuted_test_batch",
@@ -309,6 +409,9 @@ def describe(tier):
         "an original/permuted pair of real detectors under identical seeds; non-trivial = history containing a permuted batch",
         "bounds": {"batch_rows": [len(m) for m in M2], "permutations_per_batch": {str(n): len(PERMS[n]) for n in PERMS},
                    "batches_over_5_rows": "every transposition, every rotation and the reversal (n! is out of reach)",
+                   "huge_batches": {"rows": list(HUGE_SIZES[tier]), "permutations": HUGE_PERM_NAMES, "histories": HUGE_HISTORIES[: 2 if tier == "quick" else 4],
+                                    "configs": [{"detector": c[0], "params": c[1]} for c in HUGE_CFGS],
+                                    "note": "quick: KdqTreeBatch on the 70001-row menus only; one permuted position per history; HDDDM, CDBD, KdqTreeBatch only (NN-DVI is quadratic in the rows)"},
                    "configs": [{"detector": c[0], "params": c[1], "decisions_compared": c[2]} for c in CFGS]},
         "explanation": "differential oracle; HDM distances and NNPS distance compared to 1e-12, kdq divergence recomputed from "
         "the public node counts; full decision traces compared for HDDDM/CDBD detect_batch=3, KdqTreeBatch and NNDVI",
